@@ -182,7 +182,25 @@ impl Reasoner {
                 }
             }
         }
-        repairs
+
+        // The test above only compares a candidate with repairs found *earlier*, so a consistent set that is
+        // reached before one of its consistent supersets is still in the list.  Keep the subset-maximal
+        // candidates only, and return them in an order that does not depend on hash iteration order.
+        let maximal: Vec<HashSet<Triple>> = repairs
+            .iter()
+            .filter(|r| !repairs.iter().any(|o| o.is_superset(r) && !r.is_superset(o)))
+            .cloned()
+            .collect();
+        let mut keyed: Vec<(Vec<Triple>, HashSet<Triple>)> = maximal
+            .into_iter()
+            .map(|r| {
+                let mut key: Vec<Triple> = r.iter().cloned().collect();
+                key.sort();
+                (key, r)
+            })
+            .collect();
+        keyed.sort_by(|a, b| a.0.cmp(&b.0));
+        keyed.into_iter().map(|(_, r)| r).collect()
     }
 }
 
